@@ -3,7 +3,10 @@
 Input families: (A) a plain base and an overriding document rooted !notnew; (N) a plain base - or nothing - and a document with
 !notnew / !new on any container, in particular inside whole sections the base does not have (the tagged node sits below the root
 of a subtree that is created in one piece, or in the first and only document); (B) command-line overrides through
-Config.build_from_cmdline; (T) bare option strings through Config.process_cmdline.  Oracle for A and N (written_paths): a path may
+Config.build_from_cmdline; (T) bare option strings through Config.process_cmdline; (D) a base with a protected (!force) entry
+next to plain ones and a !notnew override whose mapping at that place is DELETING (!del), as documents and as the option string
+`path=!del {...}`: a successful build creates no path, a failing one names a path the override writes and the base lacks.
+Oracle for A and N (written_paths): a path may
 be created iff the nearest tagged node strictly above it in the document says !new, or there is none; after a successful build
 every path that did not exist before is exactly such a written path, a failure is a MergeError, and a document that writes only
 existing or creatable paths builds."""
@@ -279,6 +282,59 @@ def gen_placement_override(rng, bp, ps):
         return o
     return place_flags(rng, build(items), 0.2, 0.1)
 
+# ------------------------------------------------------------------------------------------------
+# (D) deleting nodes inside a !notnew override, next to a protected sibling
+# ------------------------------------------------------------------------------------------------
+_D_KEYS = ['opt', 'sched', 'wd', 'aug', 'lr', 'mom']
+_D_NEW = ['lrr', 'optt', 'fresh', 'zz']
+
+def _d_sub(rng, depth):
+    """unprotected content: scalars and mappings (no list, no tag)"""
+    if depth <= 0 or rng.random() < 0.4:
+        return S(rng.choice([1, 2, 7, 'adam', True, 0.5]))
+    return M([(k, _d_sub(rng, depth - 1)) for k in rng.sample(_D_KEYS, rng.choice([1, 2, 3]))])
+
+def _d_restate(rng, raw, new_left):
+    """restate part of the unprotected subtree `raw` with other values (scalars stay scalars, mappings mappings); while
+    new_left[0] > 0, now and then write a key the base does not have, at this level"""
+    if 's' in raw:
+        return S(rng.choice([3, 4, 'sgd', False]))
+    items = [(sc_py(k), _d_restate(rng, c, new_left)) for k, c in raw['m'] if rng.random() < 0.75]
+    if new_left[0] > 0 and rng.random() < 0.5:
+        new_left[0] -= 1
+        items.insert(rng.randrange(len(items) + 1), (rng.choice(_D_NEW), _d_sub(rng, rng.choice([0, 0, 1]))))
+    return M(items)
+
+def gen_del_case(rng):
+    """base `{w: {m: {keep: !force 1, opt: {lr: 1}, ..}}, z: 0}` (0-2 wrappers above m) and the override
+    `!notnew {w: {m: !del {opt: {lr: 2, lrr: 3}}}}`: the mapping at m is deleting, it restates some of the unprotected entries of m
+    (other values, sub-mappings in part) and writes 0-2 keys the base does not have, at its own level or deeper; mostly next to
+    protected (!force) siblings, which survive the pruning; handed over as two documents or as `w.m=!del {...}`"""
+    prefix = rng.sample(['w', 'v', 'u'], rng.choice([0, 0, 1, 2]))
+    entries = [(k, _d_sub(rng, rng.choice([0, 1, 1, 2]))) for k in rng.sample(_D_KEYS, rng.choice([1, 2, 3]))]
+    prot = [('keep', S(rng.choice([1, 'x']), kw={'prio': 1}))] if rng.random() < 0.85 else []
+    if prot and rng.random() < 0.25:
+        prot.append(('keep2', M([('a', S(1))], kw={'prio': 1})))
+    items = prot + entries
+    rng.shuffle(items)
+    base = G.nest(prefix + ['m'], M(items))
+    base['m'].append([sc_json('z'), S(0)])
+    new_left = [rng.choice([0, 0, 1, 1, 2])]
+    body = _d_restate(rng, M(entries), new_left)
+    while new_left[0] > 0:                    # the remaining new keys: at the level of the deleting mapping itself
+        new_left[0] -= 1
+        k = rng.choice(_D_NEW)
+        if all(sc_py(k2) != k for k2, _ in body['m']):
+            body['m'].insert(rng.randrange(len(body['m']) + 1), [sc_json(k), _d_sub(rng, rng.choice([0, 1]))])
+    value = M([(sc_py(k), c) for k, c in body['m']], kw={'del': True})
+    over = G.nest(prefix + ['m'], value)
+    over['kw'] = {'new': False}; over['t'] = {'k': 'plain'}
+    case = {'docs': [{'raw': base}, {'raw': over}], 'style': ['flow', 0, 0], 'kind': 'D'}
+    if rng.random() < 0.5:
+        case = {'docs': [{'raw': base}], 'style': ['flow', 0, 0], 'kind': 'D', 'over': over,
+                'cmd': [render_cmd_path(prefix + ['m']) + '=' + render_flow(value).strip()]}
+    return case
+
 class C08(MergeFamProp):
     ID = 'C08'
     VOCAB = G.Vocab(notnew=True, new=True)
@@ -294,6 +350,9 @@ class C08(MergeFamProp):
             'character soup, edge cases) through Config.process_cmdline alone; for (B) and (T) the model tokenises the very same '
             'strings (driver op c08tokens) and must reproduce the option type, the exception class and the emitted YAML text character by '
             'character, and for well-formed options the nesting PyYAML reads from that text; '
+            'or (D) a base {..: {m: {keep: !force 1, opt: {lr: 1}, ..}}} and a !notnew override whose mapping at m is deleting (!del) and restates '
+            'part of the unprotected entries with 0-2 keys the base lacks at random depth (0-2 wrappers above m, mostly a protected sibling, '
+            'sometimes none: early exit), as two documents or as the option string `path=!del {...}` through Config.build_from_cmdline; '
             'non-trivial = the override touches at least one existing path; distinct by SHA-1')
     ASSUMPTIONS = ['between the YAML text emitted by process_cmdline (modelled: AY.Model.Cmdline.emitText) and the override document '
                    '(modelled: emitDoc / c08_rawDoc) sits PyYAML, which is compared at run time, not verified']
@@ -312,6 +371,16 @@ class C08(MergeFamProp):
             D('N', M({'train': M({'lr': S(1)})}), M({'nw': M({'s': M({'w': M({'v': S(1)})}, kw={'new': True})}, kw={'new': False})})),
             D('N', M({'train': M({'lr': S(1)})}), M({'train': M({'opt': Q([M({'v': S(1)})])}, kw={'new': True})}, kw={'new': False})),
             D('N', M({'nw': Q([M({'z': S(1)}, kw={'new': False})])})), D('N', M({}, kw={'new': False})), D('N', M({'a': S(1)}, kw={'new': False})),
+            # (D) the deleting mapping next to a protected sibling: m.opt.lrr must be named; restating what was there must build
+            D('D', M({'m': M({'keep': S(1, kw={'prio': 1}), 'opt': M({'lr': S(1)})})}),
+              M({'m': M({'opt': M({'lr': S(2), 'lrr': S(3)})}, kw={'del': True})}, kw={'new': False})),
+            D('D', M({'m': M({'keep': S(1, kw={'prio': 1}), 'opt': M({'lr': S(1)})})}),
+              M({'m': M({'opt': M({'lr': S(2)})}, kw={'del': True})}, kw={'new': False})),
+            D('D', M({'m': M({'keep': S(1, kw={'prio': 1}), 'opt': M({'lr': S(1)})})}), cmd=['m=!del {opt: {lr: 2, lrr: 3}}'],
+              over=M({'m': M({'opt': M({'lr': S(2), 'lrr': S(3)})}, kw={'del': True})}, kw={'new': False})),
+            D('D', M({'m': M({'keep': S(1, kw={'prio': 1}), 'opt': M({'lr': S(1)})})}), cmd=['m=!del {opt: {lr: 2}}'],
+              over=M({'m': M({'opt': M({'lr': S(2)})}, kw={'del': True})}, kw={'new': False})),
+            D('D', M({'m': M({'opt': M({'lr': S(1)})})}), M({'m': M({'optt': S(2)}, kw={'del': True})}, kw={'new': False})),
             D('B', base, cmd=['a.b[0].c=7']), D('B', base, cmd=['a.b[0].x=7']), D('B', base, cmd=['a.b[-1]=[1, 2]', 'f=null']),
             D('B', base, cmd=['a.b[2]=1']),
             D('B', base, cmd=['a.b[0].c=7', 'a.e=k=v'], spell=[' a . b [ +0 ] . c = 7 ', 'a.e = k=v']),
@@ -386,11 +455,15 @@ class C08(MergeFamProp):
             bp = plain_of(base)
             o = gen_placement_override(rng, bp, [p for p in paths_of_py(bp) if p])
             out.append({'docs': [{'raw': base}, {'raw': o}], 'style': ['flow', 0, 0], 'kind': 'N'})
+        for _ in range(max(4, n // 5)):   # (D), drawn last: the cases above stay the same for a seed
+            out.append(gen_del_case(rng))
         return out
 
     def cmd_docs(self, case):
         """the documents equivalent to the command-line overrides (what process_cmdline is specified to produce)"""
         import yaml as pyyaml
+        if case.get('kind') == 'D':       # the value carries a tag: the equivalent document was generated along with the string
+            return [{'raw': case['over']}]
         docs = []
         for c in case['cmd']:
             key, val = c.split('=', 1)
@@ -408,7 +481,7 @@ class C08(MergeFamProp):
     def impl(self, case):
         if case.get('kind') == 'T':
             return {'cmdline': [cmdline_obs(o) for o in case['opts']]}
-        if case.get('kind') != 'B':
+        if not (case.get('kind') == 'B' or (case.get('kind') == 'D' and case.get('cmd'))):
             return super().impl(case)
         text = render_doc(case['docs'][0]['raw'])
         spell = case.get('spell', case['cmd'])      # the strings actually handed to the implementation
@@ -425,7 +498,7 @@ class C08(MergeFamProp):
     def model_requests(self, case):
         if case.get('kind') == 'T':
             return [{'op': 'c08tokens', 'options': case['opts']}]
-        docs = case['docs'] + (self.cmd_docs(case) if case.get('kind') == 'B' else [])
+        docs = case['docs'] + (self.cmd_docs(case) if case.get('cmd') else [])
         reqs = [{'op': 'merge', 'docs': docs}, {'op': 'config', 'docs': docs, 'world': self.WORLD}]
         if case.get('kind') == 'B':
             reqs.append({'op': 'c08tokens', 'options': case.get('spell', case['cmd'])})
@@ -459,8 +532,46 @@ class C08(MergeFamProp):
                 return None
         return super().compare(case, io, mo)
 
+    def oracle_del(self, case, io):
+        """(D): a successful build creates no path that did not exist before; a failing one is a MergeError naming a path that the
+        override writes and the base lacks"""
+        cfg = io['cfg']
+        over = case['over'] if case.get('cmd') else (case['docs'][1]['raw'] if len(case['docs']) == 2 else None)
+        if over is None or (over.get('kw') or {}).get('new') is not False:
+            return None       # shrunk out of the family: the root is no longer !notnew
+        if case.get('cmd'):
+            d = first_diff({k: v for k, v in cfg.items() if k != 'log'}, {k: v for k, v in io['cfg_docs'].items() if k != 'log'})
+            if d:
+                return 'build_from_cmdline differs from merging the equivalent !notnew document: ' + d
+        base = plain_of(case['docs'][0]['raw'])
+        bpaths = set(paths_of_py(base))
+        wp = {p for p, _ in written_paths(over)}
+        if 'ok' in cfg:
+            got = val_to_py(strip_ids(cfg['ok']))
+            created = sorted(set(paths_of_py(got)) - bpaths, key=str)
+            if created:
+                return (f'the build succeeded but created the path {list(created[0])}, which did not exist before, below a !notnew root '
+                        f'(deleting mapping: a restated key is restored, a new one must be refused)')
+            return None
+        if cfg.get('err') != 'merge':
+            return f'a !notnew override that cannot be applied must be a MergeError, got {cfg.get("err")}'
+        named = cfg.get('notnew')
+        if named is None:
+            return 'the MergeError names no path (mappings only: no index validation involved)'
+        try:
+            p = tuple(sc_py(k) for k in NodePath.get_list_path(named))
+        except Exception:
+            return f'MergeError names an unparsable path {named!r}'
+        if p not in wp:
+            return f'MergeError names {named!r}, which the override does not write'
+        if p in bpaths:
+            return f'MergeError names {named!r}, which exists in the base config'
+        return None
+
     def oracle(self, case, io, ans):
         kind = case.get('kind')
+        if kind == 'D':
+            return self.oracle_del(case, io)
         if kind not in ('A', 'B', 'N'):
             return None
         cfg = io['cfg']
@@ -557,6 +668,14 @@ class C08(MergeFamProp):
                     new_above = [i for i in range(1, len(p) + 1) if norm_path(base, p[:i]) is None]
                     f.append('!notnew:on-a-new-path' if new_above and new_above[0] == len(p) else
                              '!notnew:inside-a-new-section' if new_above else '!notnew:on-an-existing-path')
+        if case.get('kind') == 'D':
+            over = case['over'] if case.get('cmd') else (case['docs'][1]['raw'] if len(case['docs']) == 2 else None)
+            if over is not None:
+                bpaths = set(paths_of_py(plain_of(case['docs'][0]['raw'])))
+                nnew = len([p for p, _ in written_paths(over) if p not in bpaths and p[:-1] in bpaths])
+                f.append(f'D:new-keys={min(nnew, 2)}')
+                f.append('D:option-string' if case.get('cmd') else 'D:documents')
+                f.append('D:protected-sibling' if any((n.get('kw') or {}).get('prio') for _, n in G.paths_of(case['docs'][0]['raw'])) else 'D:nothing-protected')
         for o in (io.get('cmdline') or []) if isinstance(io, dict) else []:
             f.append('option:' + o['type'] + ('/' + o['error'] if 'error' in o else ''))
         if case.get('spell') and case['spell'] != case['cmd']:
@@ -574,6 +693,9 @@ class C08(MergeFamProp):
                 for j in range(len(o)):     # drop one character (the option is then no longer known to be well-formed)
                     yield dict(case, opts=case['opts'][:i] + [o[:j] + o[j + 1:]] + case['opts'][i + 1:],
                                wf=case['wf'][:i] + [False] + case['wf'][i + 1:], paths=case['paths'][:i] + [None] + case['paths'][i + 1:])
+            return
+        if case.get('kind') == 'D' and case.get('cmd'):
+            yield {'docs': case['docs'] + [{'raw': case['over']}], 'style': case['style'], 'kind': 'D'}
             return
         for c in super().shrink(case):
             if case.get('spell'):
